@@ -178,6 +178,41 @@ def solve(ob, want_model=None, timeout_ms=None, relax=False):
 _retry_budget = [6]     # per function (reset in _verify): a changed tree with many unknowns must not take hours
 
 
+def presolve(obls, threads=None, timeout_s=None, only=None):
+    """first pass over all obligations of a function in parallel: each VC is written as SMT-LIB text and given to the z3 5.1 CLI
+    (same solver as the API); only `unsat` answers are kept, everything else goes through solve() afterwards"""
+    import concurrent.futures as cf
+    import shutil
+    exe = shutil.which("z3-new")
+    if exe is None or (only is not None and len(only) < 4):
+        return {}
+    threads = threads or int(os.environ.get("PYVC_THREADS", "8"))
+    timeout_s = timeout_s or max(2, (TIMEOUT_MS + 999) // 1000)
+    texts = {}
+    for i, ob in enumerate(obls):
+        if z3.is_true(ob.goal) or (only is not None and i not in only):
+            continue
+        try:
+            texts[i] = smt2_of(ob)
+        except Exception:
+            pass
+
+    def run(i):
+        t0 = time.time()
+        try:
+            r = subprocess.run([exe, "-in", f"-T:{timeout_s}"], input=texts[i], capture_output=True, text=True, timeout=timeout_s + 10)
+            ans = (r.stdout.strip().splitlines() or ["unknown"])[0].strip()
+        except Exception:
+            ans = "unknown"
+        return i, ans, time.time() - t0
+    out = {}
+    with cf.ThreadPoolExecutor(max_workers=threads) as ex:
+        for i, ans, dt in ex.map(run, list(texts)):
+            if ans == "unsat":
+                out[i] = dt
+    return out
+
+
 def smt2_of(ob):
     s = z3.Solver()
     s.add(*ob.assumptions)
@@ -317,6 +352,8 @@ def _verify(qual, repo, ctx, bound, second_solver, fast, case):
                 X.notes.append(f"A: parameter list `{p_}` is read-only in {qual} (checked syntactically: never mutated, assigned, stored or passed to a call)")
         X.frozen_locals = Exec.frozen_list_locals(fn)
         X.private_locals = Exec.private_list_locals(fn)
+        X.private_lists = Exec.dict_separate_locals(fn)
+        X.fn_node = fn
         pre_pc = list(st.pc)
         exits = X.block(fn.body, st)
         n_normal = 0
@@ -392,7 +429,22 @@ def _verify(qual, repo, ctx, bound, second_solver, fast, case):
         for ob in X.obls:
             if _mentions(ob.goal, "tdiv") or any(_mentions(a_, "tdiv") for a_ in ob.assumptions):
                 ob.assumptions = list(ob.assumptions) + tdiv_ax
-            res, dt, model, backend = solve(ob, mk_decoder(ob), 1500 if fast else None, relax=fast)
+        # pass 1: every obligation with a short budget in-process; pass 2: what is left, in parallel through the z3 CLI with the
+        # full budget; pass 3 (below): what is still left, in-process with retry, model extraction and the second solvers
+        quick, pre = {}, {}
+        if not fast and not os.environ.get("PYVC_NO_PRESOLVE"):
+            for oi, ob in enumerate(X.obls):
+                r1 = solve(ob, None, 1200, relax=False)
+                if r1[0] == "unsat":
+                    quick[oi] = r1
+            pre = presolve(X.obls, only={oi for oi in range(len(X.obls)) if oi not in quick})
+        for oi, ob in enumerate(X.obls):
+            if oi in quick:
+                res, dt, model, backend = quick[oi]
+            elif oi in pre:
+                res, dt, model, backend = "unsat", pre[oi], None, "z3-cli"
+            else:
+                res, dt, model, backend = solve(ob, mk_decoder(ob), 1500 if fast else None, relax=fast)
             others = []
             if fast:
                 pass
